@@ -20,6 +20,13 @@ CONSTRUCTION from the request that was sent to it -- no model of ombott is invol
                query of the re-targeted request, header X-Id and cookie cid as the copy's environ holds them (the rewritten
                ones, or X's when they were not rewritten); and X's objects keep showing X's request (request.app is X).
                Reported as I1.view_changed with the extra fields `app_is_mine`, `xid`, `cid`.
+  I1 listeners `listen`: the handler of X registers an 'env_changed' listener (request.on) on X's request object, on a copy of
+               it, or on a copy of another application's request; the listener writes a marker ('c10.mark' = X) into the
+               request it is called with and, when that is not the object it was registered on, rewrites its query string.
+               `touch`: the handler of Y changes a key of ITS request through the item interface (QUERY_STRING to a value of
+               its own, or HTTP_X_TOUCH).  Y's request must then show exactly what Y wrote: the query string Y set (also in
+               the body Y's handler builds at its end) and no marker of another application (field `mark`; a marker of Y's
+               own listener is Y's own business and accepted).  Reported as I1.view_changed / I2.response_not_its_own.
   I3 own copy  the same, when the only operation before the change was X copying its OWN request (reported under a
                separate clause id: the copy is not X's request object, X's must keep showing X's request).
   I0 raised    none of these operations raises (constructing an application or copying a request while another
@@ -62,7 +69,14 @@ BOUND = ('arrangements of 2..3 applications out of {A, B, C fresh, D = module-le
          'environ of the copy x header/cookie rewrite on the copy {no, yes} x earlier read of X.request.headers/cookies {no, yes} x '
          'lazy body of Y {no, yes} x inner script of Y {nothing, copy, forward on to the third application (rewrite+look / '
          'neither)} x before it {nothing, copy, plain nested call of Y, another forward} x outer body lazy {no, yes}; two '
-         'threads: thread 0 forwards (rewrite, look) while thread 1 serves the other application, all interleavings of the explicit points.')
+         'threads: thread 0 forwards (rewrite, look) while thread 1 serves the other application, all interleavings of the explicit points. '
+         'LISTENERS (request.on(env_changed) / item assignment on the request): every arrangement x every other application Y x '
+         'listener registered on {own request, copy of it, copy of the other application\'s request} x changed key {QUERY_STRING, '
+         'HTTP_X_TOUCH} in the scripts: X listens then Y (nested / forwarded with the copy\'s environ / a new application served '
+         'inside) touches; nested Y listens then X touches; X listens and touches, then Y touches; top level: Y touches, X listens '
+         '(and touches), Y touches again (plain and with lazily consumed bodies, a later-constructed application touching last); two '
+         'threads (arrangements (A,B) (D,A) (A,D)): thread 0 serves X which listens {own, copy}, thread 1 serves Y which touches '
+         'QUERY_STRING, all interleavings of the explicit points.')
 NONTRIVIAL_RULE = ('distinct (mode, arrangement, programs, schedule); non-trivial = at least one foreign operation happens while '
                    'a request is in progress (one thread), resp. at least one thread is preempted inside its request (two threads)')
 
@@ -77,6 +91,7 @@ def exhaustive(tier):
 # ---------------------------------------------------------------------------------------------
 # programs (plain JSON): op = [name, ...]
 #   handler ops : ['call', app, rid, script, lazy]  ['copy']  ['copyof', app]  ['new']  ['newserve', rid, script]
+#                 ['listen', 'own' | 'copy']  ['listen', 'copyof', app]  ['touch', 'QUERY_STRING' | 'HTTP_X_TOUCH']
 #                 ['fwd', app, rid, script, lazy, rewrite, look]   (app is served with the environ of a copy of the request)
 #   top level   : ['serve', app, rid, script, lazy]  ['start', app, rid, script]  ['drain', rid]  ['new']
 # ---------------------------------------------------------------------------------------------
@@ -131,7 +146,7 @@ def _walk(ops):
 
 
 def _foreign_ops(program):
-    return sum(1 for op in _walk(program) if op[0] in ('call', 'copy', 'copyof', 'new', 'newserve', 'fwd'))
+    return sum(1 for op in _walk(program) if op[0] in ('call', 'copy', 'copyof', 'new', 'newserve', 'fwd', 'listen'))
 
 
 def nontrivial(case):
@@ -182,6 +197,10 @@ def _two_thread_programs(cfg, quick=False):
     yield [['serve', outer, rid(), [['fwd', other, rid(), [], 0, 1, 1]], 0]], [['serve', other, rid(), [], 0]], False
     if not quick:
         yield [['serve', outer, rid(), [['fwd', other, rid(), [['copy']], 1, 0, 1]], 0]], [['serve', other, rid(), [['copy']], 0]], False
+    # thread 0 registers a listener on its request (or a copy), thread 1 changes a key of the other application's request
+    if not quick or cfg in (['A', 'B'], ['D', 'A'], ['A', 'D']):
+        for li in LISTEN_ON:
+            yield [['serve', outer, rid(), [li], 0]], [['serve', other, rid(), [['touch', 'QUERY_STRING']], 0]], False
 
 
 def _forward_cases(cfg):
@@ -203,9 +222,60 @@ def _forward_cases(cfg):
                         yield dict(mode='one', apps=cfg, threads=[[['serve', outer, r2(), script, olazy]]])
 
 
+LISTEN_ON = [['listen', 'own'], ['listen', 'copy']]
+TOUCH = [['touch', 'QUERY_STRING'], ['touch', 'HTTP_X_TOUCH']]
+
+
+def _listener_cases(cfg):
+    """one thread: an application registers an env_changed listener on its request (or a copy), another one changes a key
+    of its own request afterwards.  (No application is entered again while one of its requests is in progress.)"""
+    x = cfg[0]
+    for y in cfg[1:]:
+        third = [a for a in cfg if a not in (x, y)]
+        for li in LISTEN_ON + [['listen', 'copyof', x]]:
+            for to in TOUCH:
+                scripts = []
+                if li[1] != 'copyof':             # X listens, then Y changes its request
+                    scripts += [
+                        [li, ['call', y, 'n1', [to], 0]],
+                        [li, ['call', y, 'n1', [to], 1]],
+                        [li, to, ['call', y, 'n1', [to], 0], to],
+                        [li, ['newserve', 'n1', [to]]],
+                        [li, ['fwd', y, 'n1', [to], 0, 1, 1]],
+                        [li, ['fwd', y, 'n1', [to], 1, 0, 0]],
+                        [li, ['call', y, 'n1', [['copy'], to, ['newserve', 'n2', [to]]], 0]],
+                    ]
+                    for z in third:
+                        scripts.append([li, ['call', y, 'n1', [to, ['call', z, 'n2', [to], 0]], 0]])
+                # nested Y listens (own request, a copy, a copy of X's request), then X changes its request
+                scripts += [
+                    [['call', y, 'n1', [li], 0], to],
+                    [['call', y, 'n1', [li, to], 0], to, ['copy'], to],
+                    [['newserve', 'n1', [li]], to],
+                ]
+                for z in third:
+                    scripts.append([['call', y, 'n1', [li], 0], ['call', z, 'n2', [to], 0], to])
+                for script in scripts:
+                    r2 = _Rids()
+                    yield dict(mode='one', apps=cfg, threads=[[['serve', x, r2(), [_fresh_rids(o, r2) for o in script], 0]]])
+                if li[1] == 'copyof':
+                    continue
+                # top level, one request after the other (the later ones must be as the first one was)
+                yield dict(mode='one', apps=cfg, threads=[[['serve', y, 'q1', [to], 0], ['serve', x, 'q2', [li, to], 0],
+                                                           ['serve', y, 'q3', [to], 0], ['serve', x, 'q4', [to], 0],
+                                                           ['serve', y, 'q5', [['newserve', 'q6', [to]], to], 0]]])
+                for drains in (['q1', 'q2'], ['q2', 'q1']):
+                    yield dict(mode='one', apps=cfg, threads=[[['start', x, 'q1', [li]], ['start', y, 'q2', [to]]]
+                                                              + [['drain', q] for q in drains]])
+
+
 def gen_cases(tier, seed):
     quick = tier == 'quick'
     maxlen = 2 if quick else 3
+    # ---- one thread, listeners on request objects
+    for cfg in CONFIGS:
+        for c in _listener_cases(cfg):
+            yield c
     # ---- one thread, forwarding over Request.copy()
     for cfg in CONFIGS:
         for c in _forward_cases(cfg):
@@ -297,6 +367,9 @@ class World:
         self.lock = threading.Lock()
         self.reg_lock = threading.Lock()
         self.nnew = 0
+        self.closed = False
+        self.removers = []
+        self.uses_marks = any(op[0] in ('listen', 'touch') for prog in programs for op in _walk(prog))
         self.has_fwd = any(op[0] == 'fwd' for prog in programs for op in _walk(prog))
         for name in cfg:
             app = ombott.app if name == 'D' else ombott.Ombott()
@@ -351,7 +424,10 @@ class World:
     # ------------------------------------------------------------ the contract: views by construction
     def expected_view(self, fr):
         rid = fr['rid']
-        exp = dict(env_is_mine=True, marker=rid, path='/c10/' + rid, qs='id=' + rid, xid=fr.get('xid', rid), cid=fr.get('cid', rid))
+        exp = dict(env_is_mine=True, marker=rid, path='/c10/' + rid, qs=self.reqs[rid].get('qs', 'id=' + rid),
+                   xid=fr.get('xid', rid), cid=fr.get('cid', rid))
+        if self.uses_marks:
+            exp['mark'] = None                   # no marker written by a listener of ANOTHER application
         if self.has_fwd:
             exp['app_is_mine'] = True
         if fr.get('defer_headers'):
@@ -382,6 +458,9 @@ class World:
             del got['xid'], got['cid']
         if self.has_fwd:
             got['app_is_mine'] = _safe(lambda: rq.app is fr['app'])
+        if self.uses_marks:
+            mark = _safe(lambda: rq.get('c10.mark'))
+            got['mark'] = None if mark == fr['name'] else mark      # its own listener's marker is its own business
         return got
 
     def check(self, tag):
@@ -401,7 +480,7 @@ class World:
     def check_response(self, rid, rec, body):
         spec = self.reqs[rid]
         name = spec['app']
-        exp_body = ('%s:%s:/c10/%s:id=%s' % (name, rid, rid, rid)).encode()
+        exp_body = ('%s:%s:/c10/%s:%s' % (name, rid, rid, spec.get('qs', 'id=' + rid))).encode()
         hd = {}
         for k, v in rec['headers'] or []:
             hd.setdefault(k, []).append(v)
@@ -562,6 +641,29 @@ class World:
             cp.environ['PATH_INFO'] = '/mutated/by/' + fr['rid']
             cp['QUERY_STRING'] = 'mutated=' + fr['rid']
             self.tl.last = ('copyof', op[1], name)
+        elif kind == 'listen':
+            if op[1] == 'own':
+                target = fr['app'].request
+            elif op[1] == 'copy':
+                target = fr['app'].request.copy()
+            else:
+                target = self.apps[op[2]].request.copy()
+            self.keep.append(target)
+            self.removers.append(target.on('env_changed', self.listener(name, target)))
+            if op[1] != 'own':
+                target['QUERY_STRING'] = 'X=' + fr['rid']          # the copy is changed: its listener marks the copy
+            self.tl.last = ('listen', name, op[1])
+        elif kind == 'touch':
+            rq = fr['app'].request
+            if op[1] == 'QUERY_STRING':
+                new = 'id=%s&T=%d' % (fr['rid'], fr.get('touched', 0) + 1)
+                fr['touched'] = fr.get('touched', 0) + 1
+                self.reqs[fr['rid']]['qs'] = new                  # what this request shows from now on is what its handler wrote
+                rq['QUERY_STRING'] = new
+            else:
+                fr['touched'] = fr.get('touched', 0) + 1
+                rq[op[1]] = '%s-%d' % (fr['rid'], fr['touched'])
+            self.tl.last = ('touch', name, op[1])
         elif kind == 'new':
             self.keep.append(self.ombott.Ombott())
             self.tl.last = ('new', name)
@@ -577,6 +679,26 @@ class World:
             self.tl.last = ('newserve', nname, op[1])
         else:
             raise ValueError(kind)
+
+    def listener(self, owner, target):
+        """An env_changed listener of application `owner`, registered on the request object `target`: marks the request it is
+        called with and normalises the query string of a request that is not the one it was registered on."""
+        def cb(req, key, value):
+            if self.closed:
+                return                            # the case is over (a request object may outlive it: the default application's)
+            req.environ['c10.mark'] = owner
+            if req is not target:
+                req.environ['QUERY_STRING'] = 'rewritten-by-listener-of-' + owner
+        return cb
+
+    def close(self):
+        self.closed = True
+        for un in self.removers:
+            try:
+                un()
+            except Exception:  # noqa - already gone
+                pass
+        del self.removers[:]
 
     # ------------------------------------------------------------ top-level programs
     def run_program(self, prog):
@@ -627,6 +749,7 @@ def _count(cfg, prog, traced):
             sched = tc.Sched(1, [], trace_prefix=tc.ombott_dir() if traced else None, count_all=True)
             w = World(cfg, [prog], sched)
             sched.run([lambda: w.run_program(prog)])
+            w.close()
             n = sched.counts[0]
         _COUNTS[key] = n
     return _COUNTS[key]
@@ -671,6 +794,7 @@ def _probe_shared_store():
 
 
 def _finish(w, extra=None):
+    w.close()
     if w.failure is None:
         return None
     f = dict(w.failure)
@@ -698,6 +822,7 @@ def run_case(case):
                 sched = tc.Sched(len(programs), [], free=True)
                 w = World(cfg, programs, sched)
                 results = sched.run([(lambda p=p: w.run_program(p)) for p in programs])
+                w.close()
                 if sched.broken or not all(r[0] for r in results):
                     return fail('harness.timeout', detail=sched.broken)
                 for _d, _r, exc in results:
